@@ -421,4 +421,39 @@ func list.PushFrontList
   ghost after call list.insertValue: ins = ins + 1
   loop 1 invariant i >= 0 && ins + i == cnt
   ghost at return: assert ins == cnt
+-- ForEach: the iteration ends at the first error the callback returns, and that error is the result
+-- (checked for this statement only - opt only-ghost-asserts)
+func list.ForEach
+  instantiate T: int
+  opt only-ghost-asserts
+  requires l != nil && callback != nil
+  callback callback(v) (err)
+  modifies everything
+  ghost local failed Bool
+  ghost local lasterr Int
+  ghost at entry: failed = false
+  ghost before call list.ForEach#callback: assert !failed
+  ghost after call list.ForEach#callback: failed = (result != nil)
+  ghost after call list.ForEach#callback: lasterr = result
+  loop 1 invariant !failed
+  ghost at return: assert failed ==> r0 == lasterr
+  ghost at return: assert !failed ==> r0 == nil
+
+-- ForEachReverse: the iteration ends at the first error the callback returns, and that error is the result
+-- (checked for this statement only - opt only-ghost-asserts)
+func list.ForEachReverse
+  instantiate T: int
+  opt only-ghost-asserts
+  requires l != nil && callback != nil
+  callback callback(v) (err)
+  modifies everything
+  ghost local failed Bool
+  ghost local lasterr Int
+  ghost at entry: failed = false
+  ghost before call list.ForEachReverse#callback: assert !failed
+  ghost after call list.ForEachReverse#callback: failed = (result != nil)
+  ghost after call list.ForEachReverse#callback: lasterr = result
+  loop 1 invariant !failed
+  ghost at return: assert failed ==> r0 == lasterr
+  ghost at return: assert !failed ==> r0 == nil
 @*/
